@@ -70,7 +70,7 @@ Qed.
 Definition err_unclean (n : Z) (e : N) : sout := (n, SErr e, false).
 
 Theorem stream_counted_trunc f t s k w :
-  (t = tBlobString \/ t = tVerbatim) -> (zlen s < two63)%Z -> unlimited w ->
+  (t = tBlobString \/ t = tVerbatim) -> (zlen s + 2 < two63)%Z -> unlimited w ->
   (k < length (enc (VBlob t s)))%nat ->
   unclean (fst (fst (runw B (stream_to (S f)) (firstn k (enc (VBlob t s))) w))).
 Proof.
@@ -116,6 +116,7 @@ Proof.
            { unfold blen. rewrite firstn_length. lia. }
            rewrite (runw_bind_eq B _ _ _ _ _ _ _ E).
            rewrite (runw_bind_eq B _ _ _ _ _ _ _ (runw_writer_err B _ w')). rewrite Ef. cbn [werr].
+           rewrite (wrap64_small_z (zlen s - zlen (firstn j s) + 2)) by (unfold zlen, two63 in *; rewrite firstn_length; lia).
            rewrite (runw_bind_eq B _ _ _ _ _ _ _ (runw_discard_short (zlen s - zlen (firstn j s) + 2) [] w'
                       ltac:(unfold zlen; rewrite firstn_length; lia)
                       ltac:(unfold blen, zlen; rewrite firstn_length; cbn [length]; lia))).
@@ -126,6 +127,7 @@ Proof.
            destruct (unlimited_write w s Hw) as (Ea & Ef & _ & _). rewrite Ea.
            rewrite (runw_bind_eq B _ _ _ _ _ _ _ (runw_writer_err B _ (snd (w_write w s)))). rewrite Ef. cbn [werr].
            rewrite skipn_all, app_nil_l.
+           rewrite (wrap64_small_z (zlen s - zlen s + 2)) by (unfold two63; lia).
            rewrite (runw_bind_eq B _ _ _ _ _ _ _ (runw_discard_short (zlen s - zlen s + 2) (firstn (j - length s) crlf) _
                       ltac:(lia) ltac:(unfold blen; rewrite firstn_length; cbn [crlf length]; lia))).
            cbn. unfold unclean. cbn. split; [reflexivity|discriminate].
